@@ -2,6 +2,7 @@
 from lib import core, gen
 
 LEVEL = 'proof'
+BBH_FEATURES = ['cps', 'reason', 'segment', 'prover', 'macro', 'oracle']      # harness command families this check needs (fallback build, lib/core.py build_bbh)
 
 # decider families: (command template with {prog} {lim}, limit answers, limits)
 FAMILIES = {
